@@ -335,6 +335,7 @@ func checkC20(c *core.Ctx) error {
 	checkRetryShrinks(c)
 	checkAxisExtents(c)
 	checkRotationDivisors(c)
+	checkRequestedResults(c)
 	checkOptionSwitches(c)
 	checkOptionSpreading(c)
 	checkADGuards(c)
